@@ -53,7 +53,9 @@ def tt_dot(E, s):
         E.true('is_tensor', tn.is_tensor(r) and r.numel() == 1)
         E.eq('value', r.reshape([]), ref)
     else:
-        r = E.tt.dot(a, b, axis)
+        ax_arg = list(axis)
+        r = E.tt.dot(a, b, ax_arg)
+        E.true('axis_argument_intact', ax_arg == list(axis))
         ref = tn.tensordot(ad, tn.conj(bd), dims=(list(axis), list(range(len(axis)))))
         if isinstance(r, E.tt.TT):
             E.eq('value', dense(E, r.cores), ref)
@@ -77,6 +79,8 @@ def tt_sum(E, s):
         return
     arg = idx[0] if s.get('as_int') else list(idx)
     r = x.sum(arg)
+    if not s.get('as_int'):
+        E.true('index_argument_intact', arg == list(idx) and all(type(v) is int for v in arg))
     dims = [i % d for i in idx] + ([d + i % d for i in idx] if 'M' in s else [])
     ref = tn.sum(xd, dims) if dims else xd
     if isinstance(r, E.tt.TT):
